@@ -181,71 +181,77 @@ theorem c04_heap_index_inv {cmp} {m : HMem} {h : Nat} (hI : IdxInv m h) :
    (heap_sift_idxInv hI).2.2.1, (heap_sift_idxInv hI).2.2.2⟩
 
 /-- `Heap[T]` with `*Element[T]` handles is a priority queue over a multiset of handles, along
-EVERY operation sequence.  The client-visible calls are `HOp` (`Init` incl. re-`Init` with the
-repaired detaching, `Push`, `PushElement`, `Pop`, `Peek`, `Len`, `Remove(e)`, `Fix(e)`,
-`e.Value = v; Fix(e)`, `PopAll`, each on one of two heaps sharing one memory of elements);
-`stepH` runs the model of the Go code.  The specification (`Proof/C04HeapSpec.lean`) keeps, per
-heap, the list of LIVE handles and a value per handle:
+EVERY operation sequence.  The client-visible calls are `HOp` (`Init(vs, c)` incl. re-`Init` with
+the repaired detaching and with ANOTHER comparator `c`, `Push`, `PushElement`, `Pop`, `Peek`,
+`Len`, `Remove(e)`, `Fix(e)`, `e.Value = v; Fix(e)`, `PopAll`, each on one of two heaps sharing
+one memory of elements); `stepH` runs the model of the Go code on `HState` = the element memory
+plus `h.cmp` of both heaps.  The specification (`Proof/C04HeapSpec.lean`) keeps, per heap, the
+list of LIVE handles and the comparator, and a value per handle:
 `Push`/`PushElement` add the handle, `Pop`/`Peek` return nil iff nothing is live and otherwise a
 live handle that no live handle precedes (`IsMin`; `Pop` erases it), `Len` is the number of live
 handles, `Remove(e)` erases exactly `e` (the identity for stale and foreign handles), `Fix` changes
 nothing but the value, `Init` makes the fresh handles of the given values the live ones (the old
-ones are dropped), `PopAll` returns the values of the live handles, each once, sorted, and
-leaves none.  Client obligations (`specPre`): `PushElement(e)` is called with an allocated
-element that is in no heap; a value changed by `setFix h e v` does not belong to the OTHER heap.
+ones are dropped) and installs the comparator, `PopAll` returns the values of the live handles,
+each once, sorted, and leaves none.  Client obligations (`specPre`): the comparator given to
+`Init` is a strict weak order; `PushElement(e)` is called with an allocated element that is in
+no heap; a value changed by `setFix h e v` does not belong to the OTHER heap.
 
-(1) `Refines`: from the empty memory (and from any related pair), as long as the client meets
-    `specPre`, no call panics, every result is one the spec allows, and `Rel` holds again —
-    for every op list.
-(2) What `Rel` means for the memory: `h.values` is heap-ordered (same predicate `Heap` as for
-    `Slice`, on the values), has no duplicates and holds exactly the live handles;
-    `Index()` of the element at position `k` is `k` and its owner is `h`; an element owned by `h`
-    is live in `h`.
+(1) `Refines`: from two heaps made by `New(0, cmp)` (and from any related pair), as long as the
+    client meets `specPre`, no call panics, every result is one the spec allows, and `Rel` holds
+    again — for every op list.
+(2) What `Rel` means for the memory: `h.values` is heap-ordered in `h`'s comparator (same
+    predicate `Heap` as for `Slice`, on the values), has no duplicates and holds exactly the live
+    handles; `Index()` of the element at position `k` is `k` and its owner is `h`; an element
+    owned by `h` is live in `h`.
 (3) Every allocated element that is live nowhere (popped, removed, discarded by `Init`) reports
     `Index() == -1` and has no owner.
 (4) Stale and foreign handles leave the WHOLE memory unchanged (not just the spec state); the
     element leaving through `h.pop()` reports `-1` and loses its owner (for any memory).
-(5) One call on a memory satisfying the invariant: `Remove(e)` of a live `e` removes exactly `e`
-    (`Removed`: `e :: values' ~ values`, invariant, `e` detached, other heap, values, allocation
-    untouched); `Fix(e)` after ANY change of the value table at `e` restores the invariant with the
-    same elements; `Pop` on a non-empty heap returns the root, which no element precedes. -/
-theorem c04_heap_handles {cmp} (hs : SWO cmp) :
-    ((∀ ops, Refines cmp ops HMem.zero HSpec.zero) ∧
-     (∀ ops m s, Rel cmp m s → Refines cmp ops m s)) ∧
-    (∀ m s, Rel cmp m s → ∀ h : Fin 2,
-      Heap cmp ((m.arr h.val).map m.val.get) ∧ (m.arr h.val).Nodup ∧ (m.arr h.val).Perm (s.live h) ∧
-      (∀ (k e : Nat), (m.arr h.val)[k]? = some e → m.idx.get e = (k : Int) ∧ m.own.get e = some h.val) ∧
-      (∀ e, m.own.get e = some h.val → e ∈ s.live h)) ∧
-    (∀ m s, Rel cmp m s → ∀ e, e < s.fresh → (∀ h, e ∉ s.live h) →
-      m.idx.get e = -1 ∧ m.own.get e = none) ∧
-    ((∀ m s, Rel cmp m s → ∀ (h : Fin 2) e, e ∉ s.live h →
-        m.remove cmp h.val e = some m ∧ m.fixElem cmp h.val e = some m) ∧
-     (∀ (m : HMem) (h e : Nat), m.own.get e ≠ some h →
+(5) One call on a memory satisfying the invariant (`cm h` = comparator of heap `h`): `Remove(e)` of
+    a live `e` removes exactly `e` (`Removed`: `e :: values' ~ values`, invariant, `e` detached,
+    other heap, values, allocation untouched); `Fix(e)` after ANY change of the value table at `e`
+    restores the invariant with the same elements; `Pop` on a non-empty heap returns the root,
+    which no element precedes. -/
+theorem c04_heap_handles :
+    ((∀ cmp, SWO cmp → ∀ ops, Refines ops (HState.zero cmp) (HSpec.zero cmp)) ∧
+     (∀ ops st s, Rel st s → Refines ops st s)) ∧
+    (∀ st s, Rel st s → ∀ h : Fin 2,
+      Heap (s.cmp h) ((st.m.arr h.val).map st.m.val.get) ∧ (st.m.arr h.val).Nodup ∧
+      (st.m.arr h.val).Perm (s.live h) ∧ st.cmp h.val = s.cmp h ∧
+      (∀ (k e : Nat), (st.m.arr h.val)[k]? = some e →
+        st.m.idx.get e = (k : Int) ∧ st.m.own.get e = some h.val) ∧
+      (∀ e, st.m.own.get e = some h.val → e ∈ s.live h)) ∧
+    (∀ st s, Rel st s → ∀ e, e < s.fresh → (∀ h, e ∉ s.live h) →
+      st.m.idx.get e = -1 ∧ st.m.own.get e = none) ∧
+    ((∀ st s, Rel st s → ∀ (h : Fin 2) e, e ∉ s.live h → ∀ cmp,
+        st.m.remove cmp h.val e = some st.m ∧ st.m.fixElem cmp h.val e = some st.m) ∧
+     (∀ cmp (m : HMem) (h e : Nat), m.own.get e ≠ some h →
         m.remove cmp h e = some m ∧ m.fixElem cmp h e = some m) ∧
      (∀ (m m' : HMem) (h x : Nat), m.popLast h = some (m', x) →
         m'.idx.get x = -1 ∧ m'.own.get x = none)) ∧
-    (∀ m, MemOK cmp m → ∀ h, h < 2 →
-      (∀ e, m.own.get e = some h → ∃ m', m.remove cmp h e = some m' ∧ Removed cmp m m' h e) ∧
+    (∀ (cm : Nat → Int → Int → Bool) m, MemOK cm m → ∀ h, h < 2 → SWO (cm h) →
+      (∀ e, m.own.get e = some h → ∃ m', m.remove (cm h) h e = some m' ∧ Removed cm m m' h e) ∧
       (∀ e (val' : Golib.C13.IM), m.own.get e = some h → (∀ x, x ≠ e → val'.get x = m.val.get x) →
-        ∃ m', ({ m with val := val' } : HMem).fixElem cmp h e = some m' ∧ MemOK cmp m' ∧
+        ∃ m', ({ m with val := val' } : HMem).fixElem (cm h) h e = some m' ∧ MemOK cm m' ∧
           (m'.arr h).Perm (m.arr h) ∧ m'.arr (oth h) = m.arr (oth h) ∧ m'.val = val' ∧
           m'.fresh = m.fresh) ∧
-      (m.arr h ≠ [] → ∃ m', m.pop cmp h = some (m', some (elemAt m h 0)) ∧
-        Removed cmp m m' h (elemAt m h 0) ∧
-        ∀ y, y ∈ m.arr h → cmp (m.val.get y) (m.val.get (elemAt m h 0)) = false)) := by
-  refine ⟨⟨fun ops => refines_all hs ops _ _ (rel_zero cmp), fun ops m s R => refines_all hs ops m s R⟩,
-    ?_, ?_, ⟨?_, fun m h e => heap_handles_ignored cmp m h e, fun m m' h x hp => popLast_left m m' h x hp⟩, ?_⟩
-  · intro m s R h
+      (m.arr h ≠ [] → ∃ m', m.pop (cm h) h = some (m', some (elemAt m h 0)) ∧
+        Removed cm m m' h (elemAt m h 0) ∧
+        ∀ y, y ∈ m.arr h → cm h (m.val.get y) (m.val.get (elemAt m h 0)) = false)) := by
+  refine ⟨⟨fun cmp hs ops => refines_all ops _ _ (rel_zero hs), fun ops st s R => refines_all ops st s R⟩,
+    ?_, ?_, ⟨?_, fun cmp m h e => heap_handles_ignored cmp m h e, fun m m' h x hp => popLast_left m m' h x hp⟩, ?_⟩
+  · intro st s R h
     have hI := R.ok.core.idx h.val h.isLt
-    refine ⟨R.ok.ord h.val h.isLt, hI.nodup, R.live h, ?_, fun e he => (mem_live_iff R h e).2 he⟩
+    refine ⟨by rw [← R.cmpEq h]; exact R.ok.ord h.val h.isLt, hI.nodup, R.live h, R.cmpEq h, ?_,
+      fun e he => (mem_live_iff R h e).2 he⟩
     intro k e hk
     exact ⟨hI.index k e hk, (R.ok.core.own e h.val h.isLt).2 (List.mem_of_getElem? hk)⟩
-  · intro m s R e hf hd
+  · intro st s R e hf hd
     have ho := own_none_of_dead R hd
     exact ⟨R.ok.left e trivial (by rw [R.fresh]; exact hf) ho, ho⟩
-  · intro m s R h e he
-    exact heap_handles_ignored cmp m h.val e (fun ho => he ((mem_live_iff R h e).2 ho))
-  · intro m hok h hh
+  · intro st s R h e he cmp
+    exact heap_handles_ignored cmp st.m h.val e (fun ho => he ((mem_live_iff R h e).2 ho))
+  · intro cm m hok h hh hs
     refine ⟨fun e ho => remove_spec hs hh hok ho, fun e val' ho hv => fixElem_spec hs hh hok hv ho, ?_⟩
     intro hne
     obtain ⟨m', hrun, hrm⟩ := (pop_spec hs hh hok).2 hne
@@ -254,12 +260,14 @@ theorem c04_heap_handles {cmp} (hs : SWO cmp) :
 /-- Non-vacuity of `specPre`: after `Push(7)` on heap A returned handle 0 and `Pop` returned it,
 handle 0 is allocated and live nowhere, so `B.PushElement(0)` is a call the client may make; and
 `setFix A 0 9` is allowed while 0 lives in A. -/
-example : specPre (specStep (specStep HSpec.zero (.push 0 7) (.handle (some 0))) (.pop 0) (.handle (some 0)))
-    (.pushElem 1 0) := by
-  refine ⟨by decide, ?_⟩
+example (cmp : Int → Int → Bool) :
+    specPre (specStep (specStep (HSpec.zero cmp) (.push 0 7) (.handle (some 0))) (.pop 0) (.handle (some 0)))
+      (.pushElem 1 0) := by
+  refine ⟨by simp [specStep, HSpec.zero], ?_⟩
   intro h'; simp [specStep, HSpec.setLive, HSpec.zero]
 
-example : specPre (specStep HSpec.zero (.push 0 7) (.handle (some 0))) (.setFix 0 0 9) := by
+example (cmp : Int → Int → Bool) :
+    specPre (specStep (HSpec.zero cmp) (.push 0 7) (.handle (some 0))) (.setFix 0 0 9) := by
   intro h' hne; simp [specStep, HSpec.setLive, HSpec.zero, hne]
 
 /-- Non-vacuity: `<` on keys with ties (the harness's `key` comparator shape) is a strict weak
